@@ -19,13 +19,15 @@ impl Instruction {
         if self.arguments.len() >= 1 {
             for arg in &self.arguments[..] {
                 args.push(' ');
-                if arg.contains(' ') {
-                    args.push('\"');
-                    args.push_str(arg);
-                    args.push('\"');
-                } else {
-                    args.push_str(arg);
-                }
+                args.push('\"');
+                args.push_str(
+                    &arg.replace('\\', "\\\\")
+                        .replace('"', "\\\"")
+                        .replace('\n', "\\n")
+                        .replace('\r', "\\r")
+                        .replace('\t', "\\t"),
+                );
+                args.push('\"');
             }
         }
 
